@@ -48,7 +48,7 @@ func genCasMode(r *rand.Rand) string {
 	case x < 9:
 		return "stale"
 	default:
-		return "bogus"
+		return pick(r, []string{"bogus", "bogus", "max", "maxm1", "big"})
 	}
 }
 
